@@ -57,10 +57,37 @@ def parse_bad(out):
     return [(int(a), int(c)) for a, c in _PAIR.findall(body)]
 
 
+_BUILT = set()
+
+
+def ensure_built(imports):
+    """`make` the .vo files named by a 'From LV Require Import A.B ...' header (once per process), so that
+    the case files never run against a stale Exec module."""
+    targets = []
+    for m in re.finditer(r"From\s+(LV|LVGen)\s+Require\s+Import\s+([^.]*(?:\.[A-Za-z_][\w']*)*(?:\s+[A-Za-z_][\w'.]*)*)\s*\.", imports):
+        root = "theories" if m.group(1) == "LV" else "gen"
+        for mod in m.group(2).split():
+            t = os.path.join(root, *mod.split(".")) + ".vo"
+            if t not in _BUILT and os.path.exists(os.path.join(env.COQ, t[:-1])):
+                targets.append(t)
+    if not targets:
+        return
+    from . import proofs
+    with proofs.lock():
+        if not os.path.exists(os.path.join(env.COQ, "Makefile")):
+            return
+        p = subprocess.run(["timeout", "3000", "make", "-j%d" % env.JOBS] + targets, cwd=env.COQ,
+                           capture_output=True, text=True)
+    if p.returncode == 0:
+        _BUILT.update(targets)
+    # on failure the shard compilation below reports the error (fail closed)
+
+
 def eval_cases(d, name, imports, case_type, code_fn, cases, shard=300, timeout=900, extra=""):
     """cases: list of Gallina literals of type case_type.  Returns a dict
     index -> code for the cases whose code is not 0.  Raises CoqError if a
     shard does not compile (a broken model is a broken tie, not a pass)."""
+    ensure_built(imports)
     files = []
     for k in range(0, len(cases), shard):
         path = os.path.join(d, "%s_%04d.v" % (name, k // shard))
